@@ -1,3 +1,5 @@
+import CharsetProof.Lemmas.CharsLe
+import CharsetProof.Lemmas.CharsLeNow
 import CharsetProof.Lemmas.Utf8
 import CharsetProof.Props.C17
 import CharsetProof.Props.C17b
@@ -6,6 +8,9 @@ open Charset
 #print axioms C17_utf8_strict_events
 #print axioms utf16_strict_events
 #print axioms C17_lossy_equals_strict_on_clean_input
+#print axioms supportedModelled
+#print axioms codec_strict_le
+#print axioms Cjk.strictOf_le
 #print axioms C17_test_only
 #print axioms C17_chunk_mode_irrelevant
 #print axioms C17_chunk_mode_single_byte
